@@ -11,6 +11,7 @@ pub mod c09;
 pub mod c10;
 pub mod c11;
 pub mod c12;
+pub mod c19;
 
 pub struct Prop {
 	pub id: &'static str,
@@ -31,6 +32,7 @@ pub static PROPS: &[Prop] = &[
 	Prop { id: "C10", run: c10::run, replay: c10::replay },
 	Prop { id: "C11", run: c11::run, replay: c11::replay },
 	Prop { id: "C12", run: c12::run, replay: c12::replay },
+	Prop { id: "C19", run: c19::run, replay: c19::replay },
 ];
 
 pub fn find(id: &str) -> Option<&'static Prop> {
